@@ -3,5 +3,5 @@
 m=$1; shift; props="$@"; [ -z "$props" ] && props=${m%%-*}
 git -C /repo checkout -q -- .
 git -C /repo apply /verif/seeded/$m/patch.diff || { echo "$m: patch does not apply"; exit 3; }
-for p in $props; do (cd /verif && ./check $p ${TIER:-quick} 2>&1 | grep -E "VIOLATION|UNDECIDED|PASS|KNOWN" | cut -c1-200 | sed "s/^/$m $p: /"); done
+for p in $props; do (cd /verif && VERIF_EVIDENCE_DIR=/verif/out/evidence-seed ./check $p ${TIER:-quick} 2>&1 | grep -E "VIOLATION|UNDECIDED|PASS|KNOWN" | cut -c1-200 | sed "s/^/$m $p: /"); done
 git -C /repo checkout -q -- .
